@@ -792,6 +792,9 @@ class MultiUserChannelMatrix:  # pylint: disable=R0902
             return self._big_H_no_pathloss
 
         if self._big_H_with_pathloss is None:
+            if self._pathloss_big_matrix is None:
+                # The number of antennas changed after the path loss was set
+                self._pathloss_big_matrix = self._calc_pathloss_big_matrix()
             # Apply path loss. Note that the _pathloss_big_matrix
             # matrix has the same dimension as the
             # self._big_H_no_pathloss matrix and we are performing
@@ -800,6 +803,16 @@ class MultiUserChannelMatrix:  # pylint: disable=R0902
             self._big_H_with_pathloss = (self._big_H_no_pathloss *
                                          np.sqrt(self._pathloss_big_matrix))
         return self._big_H_with_pathloss
+
+    def _calc_pathloss_big_matrix(self) -> np.ndarray:
+        """
+        Expand the path loss matrix (one value per link) to one value per
+        pair of antennas, according with the current number of antennas.
+        """
+        big_matrix = MultiUserChannelMatrix._from_small_matrix_to_big_matrix(
+            self._pathloss_matrix, self._Nr, self._Nt, self._K)
+        big_matrix.setflags(write=False)
+        return big_matrix
 
     # Property to get the pathloss. Use the "set_pathloss" method to set
     # the pathloss.
@@ -982,6 +995,9 @@ class MultiUserChannelMatrix:  # pylint: disable=R0902
         # called.
         self._big_H_with_pathloss = None
         self._H_with_pathloss = None
+        # The path loss per antenna depends on the number of antennas: it
+        # will be calculated again when required.
+        self._pathloss_big_matrix = None
 
         self._K = K
         self._Nr = Nr_array
@@ -1021,6 +1037,9 @@ class MultiUserChannelMatrix:  # pylint: disable=R0902
         # called.
         self._big_H_with_pathloss = None
         self._H_with_pathloss = None
+        # The path loss per antenna depends on the number of antennas: it
+        # will be calculated again when required.
+        self._pathloss_big_matrix = None
 
         if isinstance(Nr, int):
             Nr = np.ones(K, dtype=int) * Nr
@@ -2465,6 +2484,12 @@ class MultiUserChannelMatrixExtInt(  # pylint: disable=R0904
             # individual elements in both of them.
             self._pathloss_matrix.setflags(write=False)
             self._pathloss_big_matrix.setflags(write=False)
+
+    def _calc_pathloss_big_matrix(self) -> np.ndarray:
+        big_matrix = MultiUserChannelMatrix._from_small_matrix_to_big_matrix(
+            self._pathloss_matrix, self._Nr, self._Nt, self.K, self._K)
+        big_matrix.setflags(write=False)
+        return big_matrix
 
     def calc_cov_matrix_extint_without_noise(self,
                                              pe: float = 1.0) -> np.ndarray:
